@@ -276,7 +276,7 @@ def extract_witness(trace, entry):
 def scan_assumes(h):
     """Mechanical scan of the harness TU and the /verif headers it includes for assumptions."""
     seen, todo = set(), [os.path.join(VERIF, 'harness', h.src)]
-    out = {'ghost_axioms': [], 'harness_assumes': [], 'raw_assumes': []}
+    out = {'ghost_axioms': [], 'harness_assumes': [], 'lemmas_asserted_then_assumed': [], 'raw_assumes': []}
     while todo:
         f = todo.pop()
         if f in seen or not os.path.exists(f):
@@ -292,6 +292,8 @@ def scan_assumes(h):
                 continue
             if 'GHOST_AXIOM(' in line and '#define GHOST_AXIOM' not in line:
                 out['ghost_axioms'].append('%s:%d: %s' % (rel, ln, line.strip()[:160]))
+            if 'LEMMA(' in line and '#define LEMMA' not in line:
+                out['lemmas_asserted_then_assumed'].append('%s:%d: %s' % (rel, ln, line.strip()[:160]))
             if 'HARNESS_ASSUME(' in line:
                 out['harness_assumes'].append('%s:%d: %s' % (rel, ln, line.strip()[:160]))
             if '__CPROVER_assume' in line:
